@@ -762,7 +762,8 @@ def ray_consistency(db, cx):
             ok = k > 0 and all(r == Poly() for _l, r in res)
             if ok:
                 return True, k, modulo, res
-            if last is None:
+            # report the reading with fewer non-zero residuals (exact first on a tie)
+            if last is None or sum(1 for _l, r in res if r != Poly()) < sum(1 for _l, r in last[3] if r != Poly()):
                 last = (False, k, modulo, res)
         return last
 
@@ -780,8 +781,31 @@ def ray_consistency(db, cx):
                 env[prm["n"]] = list(v) if isinstance(v, list) else v
         return env
 
-    def run_straight(f, acc, env, fields):
-        it = FieldInterp(f, acc, fields)
+    def make_lookup(cls, key):
+        """Other const methods of the same object (same instantiation) and free helper functions
+        defined in the surface headers, by qualified name and number of arguments."""
+        def lookup(cal, nargs, is_method):
+            if is_method:
+                if not cal.startswith(C + cls + "::"):
+                    return None
+                cands = [g_ for g_ in db.get(cal) if g_.inst.rsplit("::", 1)[0] == key]
+            else:
+                cands = [g_ for g_ in db.get(cal) if "/orange/surf/" in "/" + g_.loc and not g_.r.get("cls")]
+            cands = [g_ for g_ in cands if len(g_.r.get("params", [])) == nargs]
+            if not cands:
+                return None
+            sigs = set((g_.inst, g_.r.get("sig")) for g_ in cands)
+            if len(sigs) > 1:
+                raise OutOfVocabulary("ambiguous overloads of %s with %d arguments" % (cal, nargs))
+            with_ast = [g_ for g_ in cands if "ast" in g_.r]
+            if not with_ast:
+                raise OutOfVocabulary("call of %s: no expression tree emitted for the callee "
+                                      "(add it to rules/astfuncs.py)" % cal)
+            return with_ast[0]
+        return lookup
+
+    def run_straight(f, acc, env, fields, lookup):
+        it = FieldInterp(f, acc, fields, lookup)
         it.env.update(env)
         try:
             it.run(f.r["ast"])
@@ -824,13 +848,13 @@ def ray_consistency(db, cx):
             fs = g["calc_sense"][0]
             fi = g["calc_intersections"][0]
             with_pos = [f for f in g["calc_normal"] if len(f.r["params"]) == 1]
-            no_arg = [f for f in g["calc_normal"] if not f.r["params"]]
             cx.require(with_pos, "%s::calc_normal(pos) not found" % tag)
             fn = with_pos[0]
             cx.require(len(fs.r["params"]) == 1 and len(fi.r["params"]) == 3,
                        "%s: calc_sense(pos) / calc_intersections(pos, dir, state) have other parameters" % tag)
             n_inst += 1
             fields = {}
+            lookup = make_lookup(cls, key)
             try:
                 # ---------------------------------------------------------------- (a) sense
                 seen = []
@@ -838,7 +862,7 @@ def ray_consistency(db, cx):
                 def to_sense(args):
                     seen.append(args[0])
                     return ("sense", len(seen) - 1)
-                val = unwrap(run_straight(fs, {C + "real_to_sense": to_sense}, bind(fs, [PX]), fields))
+                val = unwrap(run_straight(fs, {C + "real_to_sense": to_sense}, bind(fs, [PX]), fields, lookup))
                 if not (isinstance(val, tuple) and val[0] == "sense" and len(seen) == 1):
                     raise OutOfVocabulary("calc_sense does not return real_to_sense(<expression>): %r" % (val,))
                 if isinstance(seen[0], (Quot, list, tuple)):
@@ -897,7 +921,7 @@ def ray_consistency(db, cx):
                                               QS + "solve_along_surface": solve_along,
                                               C + "no_intersection": NONE,
                                               C + "Tolerance::sqrt_quadratic": Poly.sym("tol"),
-                                              "assume": hook}, fields)
+                                              "assume": hook}, fields, lookup)
                         it.env.update(bind(fi, [PX, DX, states[sname]]))
                         return it
                     paths = fork_paths(mk, fi.r["ast"])
@@ -929,7 +953,8 @@ def ray_consistency(db, cx):
                                     sname, call["form"], call["loc"],
                                     "; ".join("%s = %r" % (lab, r) for lab, r in res if r != Poly()) or
                                     "common factor %s is not positive" % k,
-                                    " (common factor %s)" % k if k != 1 else ""))
+                                    (" (common factor %s)" % k if k != 1 else "") +
+                                    (" (modulo u^2+v^2+w^2 = 1)" if modulo else "")))
                         elif isinstance(val, list) and all(isinstance(x, tuple) and x == NONE for x in val):
                             continue
                         elif isinstance(val, list) and len(val) == 1 and isinstance(val[0], (Poly, Quot)):
@@ -957,13 +982,10 @@ def ray_consistency(db, cx):
                           "sense does not change, or misses the surface")
 
                 # ------------------------------------------------------------------- (c) normal
-                def inner_normal(args):
-                    if args or not no_arg:
-                        raise OutOfVocabulary("%s::calc_normal overload" % tag)
-                    return run_straight(no_arg[0], nacc, {}, fields)
-                nacc = {C + "make_unit_vector": lambda args: ("unit", args[0]),
-                        C + cls + "::calc_normal": inner_normal}
-                val = unwrap(run_straight(fn, nacc, bind(fn, [PX]), fields))
+                # (a call of another overload / private helper of the same object is interpreted by
+                # FieldInterp through `lookup`)
+                nacc = {C + "make_unit_vector": lambda args: ("unit", args[0])}
+                val = unwrap(run_straight(fn, nacc, bind(fn, [PX]), fields, lookup))
                 normalised = isinstance(val, tuple) and val[0] == "unit"
                 vec = val[1] if normalised else val
                 if not (isinstance(vec, list) and len(vec) == 3) or \
@@ -972,13 +994,21 @@ def ray_consistency(db, cx):
                 vec = [as_poly(x) for x in vec]
                 if any(pw < 0 for x in vec for mono in x.t for _s, pw in mono):
                     raise OutOfVocabulary("%s::calc_normal divides by a symbol (sign of the factor unknown)" % tag)
-                if not normalised:
+                unit_const = True
+                if not normalised and all(x.is_const() for x in vec):
+                    # a literal vector: unit length is decidable
+                    unit_const = sum((x.cval() ** 2 for x in vec), Fraction(0)) == 1
+                elif not normalised:
                     cx.assume("%s::calc_normal returns a stored vector without normalising it: unit length is "
                               "the constructor's (debug-asserted) precondition, only the direction is decided" % tag)
                 k = vote(list(zip(vec, grad)))
                 res = [vec[i] - grad[i] * Poly.const(k) for i in range(3)]
                 ok = k > 0 and all(r == Poly() for r in res) and any(gr != Poly() for gr in grad)
-                if ok:
+                if ok and not unit_const:
+                    ok = False
+                    d = "normal = (%s) is returned without normalisation and is not a unit vector" % (
+                        ", ".join(repr(x) for x in vec))
+                elif ok:
                     d = "normal%s = (%s) = %s * grad F" % (" before normalisation" if normalised else "",
                                                           ", ".join(repr(x) for x in vec), k)
                 else:
